@@ -18,7 +18,7 @@ from concurrent.futures import ProcessPoolExecutor
 
 VERIF = os.path.dirname(os.path.dirname(os.path.abspath(__file__)))
 sys.path.insert(0, VERIF)
-from sa.core import Repo, Check, AnalysisError  # noqa: E402
+from sa.core import Repo, Check, AnalysisError, run_rules  # noqa: E402
 
 CORE = ["liquer/context.py", "liquer/cache.py", "liquer/parser.py", "liquer/store.py", "liquer/commands.py", "liquer/state.py",
         "liquer/state_types.py", "liquer/recipes.py", "liquer/server/blueprint.py", "liquer/remote_store.py"]
@@ -160,10 +160,12 @@ def run(job):
             try:
                 repo = Repo(sc)
                 chk = Check(p, repo, "quick")
-                mod.run(chk)
+                errs = run_rules(mod, chk)
                 v = sorted({o.rule for o in chk.obs if not o.ok})
                 if v:
                     bad.append((p, "VIOLATION", v))
+                if errs:
+                    bad.append((p, "ANALYSIS-ERROR", [x[:100] for x in errs[:2]]))
             except AnalysisError as e:
                 bad.append((p, "ANALYSIS-ERROR", [str(e)[:100]]))
             except Exception as e:   # noqa
